@@ -101,6 +101,17 @@ def plan(tier):
             jobs.append(Job('%s.%s' % (PROP, tag), kname, r'^auto cnl::_impl::operator(==|!=|<|>|<=|>=)<cnl::_impl::wrapper<',
                             scaled_cmp_contract(op, L, el, Rh, 0, 2), via=sname,
                             shim=sname, shim_types=[l, r], oracle=scaled_oracle(op, L, el, Rh, 0, 2), prop=PROP, timeout=120))
+    # built-in integer on the LEFT (seed C03_3: the left integer cast to the right operand's type): values the scaled type cannot hold, positive exponent
+    for (l, el, r) in [('i8', -4, 'i32'), ('i32', 4, 'i32')] + ([('u16', -2, 'i64'), ('i16', 0, 'u32')] if thorough else []):
+        L, Rh = T(l), T(r)
+        A = 'cnl::scaled_integer<%s, cnl::power<%d>>' % (cxx(l), el)
+        for op in ops:
+            tag = 'bsc_%s_%s_%s_%s' % (op, r, l, str(el).replace('-', 'm'))
+            sname = 'vp_' + tag
+            src.append(shim('bool', sname, [(r, 'b'), (l, 'a')], 'return b %s cnl::_impl::from_rep<%s>(a);' % (CMP[op], A)))
+            jobs.append(Job('%s.%s' % (PROP, tag), kname, r'^auto cnl::_impl::operator(==|!=|<|>|<=|>=)<',
+                            scaled_cmp_contract(op, Rh, 0, L, el, 2), via=sname,
+                            shim=sname, shim_types=[r, l], oracle=scaled_oracle(op, Rh, 0, L, el, 2), prop=PROP, timeout=120))
     el_inst = [(7, 'i32', 7, 'i32'), (7, 'i32', 8, 'u32'), (31, 'i32', 32, 'u32'), (8, 'u8', 7, 'i8'), (15, 'i16', 33, 'u64'), (63, 'i64', 64, 'u64')]
     if thorough:
         el_inst += [(1, 'i8', 64, 'u8'), (16, 'u16', 15, 'i16'), (32, 'u32', 63, 'i32'), (24, 'i32', 24, 'u32')]
